@@ -42,7 +42,7 @@ FILES = {
  "C16": "Models/P2PRecv.v, Proofs/P2PRecvProofs.v; harness props/c16.go (TCP proxy, raw peer; child processes)",
  "C17": "Models/Dispatch.v, ConnTable.v, Proofs/DispatchProofs.v, ConnTableProofs.v; harness props/c17.go",
  "C18": "Models/FirstEvent.v, Gen/EventTable.v (T4), Proofs/FirstEventProofs.v; harness props/c18.go, doubles/ethnode.go",
- "C19": "Models/Abi.v, Adaptor.v, Proofs/AbiProofs.v, AdaptorProofs.v; harness props/c19.go, doubles/ethnode.go",
+ "C19": "Models/Abi.v, Adaptor.v, AdaptorGas.v, Proofs/AbiProofs.v, AdaptorProofs.v, AdaptorGasProofs.v; harness props/c19.go, doubles/ethnode.go",
  "C20": "Models/Schnorr.v, ScLimbs.v, Gen/Ref10Sc.v (T2), Proofs/SchnorrProofs.v, ScLimbsProofs.v, ScInstances.v, ScOverflow.v; harness props/c20.go",
 }
 
